@@ -3,6 +3,13 @@
 (* public call on a real stream object must be a step the specification       *)
 (* allows: position arithmetic and EOF clamp as in C08, content as the        *)
 (* format module's CellSrc.  Many traces per file; one verdict line per trace.*)
+(* A trace is a session: besides the stream that was opened it may drive the  *)
+(* stream objects of its ancestors (ev.obj = k: the k-th layer of T.chain,    *)
+(* 1 = the top).  Every object has its own position, and what object k reads  *)
+(* is the overlay of layers k.. - whatever was done to the other objects.     *)
+(* A stream owns its ancestors as handles (QCow2 positions its backing file   *)
+(* with seek + read): an event on object j leaves the positions of objects    *)
+(* k > j unknown (-1) until they are positioned absolutely again.             *)
 EXTENDS Common, TraceCommon, Json, IOUtils
 
 CONSTANTS N, CB, P, MaxTail, NGD, GTES, NL1, L2N, S, NCOMP, EXT
@@ -70,7 +77,12 @@ ExtentSrc(q) ==
              [] x.fmt = "hds"  -> Hds!CellSrc(HdsImg(x.img), q - x.start)
   IN IF t.k = "D" THEN [t EXCEPT !.f = i - 1] ELSE t
 
-Src(q) == CASE T.fmt = "chain" -> ChainSrc(T.chain, 1, q)
+Ev == T.events[l]
+\* the stream object an event was recorded on (layer index, 1 = the stream that was opened)
+Obj(ev) == IF "obj" \in DOMAIN ev THEN ev.obj ELSE 1
+MaxObj == 8
+
+Src(q) == CASE T.fmt = "chain" -> ChainSrc(T.chain, Obj(Ev), q)
             [] T.fmt = "extents" -> ExtentSrc(q)
             [] T.fmt = "vdi" -> Vdi!CellSrc(VdiImg(T.img), q)
             [] T.fmt = "vhd" -> Vhd!CellSrc(VhdImg(T.img), q)
@@ -79,38 +91,42 @@ Src(q) == CASE T.fmt = "chain" -> ChainSrc(T.chain, 1, q)
             [] T.fmt = "vmdk" -> VmdkSrc(T.img, q)
             [] T.fmt = "qcow2" -> Qcow2!CellSrc(QcowImg(T.img), q)
 
-Ev == T.events[l]
-
 ReadOK(ev, at) ==
   /\ ev.len = ExpectLen(T.sizeB, at, ev.n)
   /\ TotalLen(ev.runs) = ev.len
   /\ RunsOK(Src, ev.runs, at, T.geo)
 
 EventOK(ev) ==
+  LET p == pos[Obj(ev)] IN
   CASE ev.e = "open"  -> ev.size = T.sizeB
-    [] ev.e = "seek"  -> ev.ret = SeekTo(T.sizeB, pos, ev.whence, ev.arg)
-    [] ev.e = "tell"  -> ev.ret = pos
-    [] ev.e \in {"read", "readinto"} -> ev.pos0 = pos /\ ReadOK(ev, pos) /\ ev.tell = pos + ev.len
-    [] ev.e = "peek"  -> ev.pos0 = pos /\ ReadOK(ev, pos) /\ ev.tell = pos
+    [] ev.e = "seek"  -> ev.ret = SeekTo(T.sizeB, p, ev.whence, ev.arg)
+    [] ev.e = "tell"  -> ev.ret = p
+    [] ev.e \in {"read", "readinto"} -> ev.pos0 = p /\ ReadOK(ev, p) /\ ev.tell = p + ev.len
+    [] ev.e = "peek"  -> ev.pos0 = p /\ ReadOK(ev, p) /\ ev.tell = p
     [] ev.e = "readoffset" -> ReadOK(ev, ev.o) /\ ev.tell = ev.o + ev.len
     \* sector interface: exactly c sectors of guest content, stream position untouched
     [] ev.e = "sectors" -> /\ ev.len = ev.c * T.sector
                            /\ TotalLen(ev.runs) = ev.len
                            /\ RunsOK(Src, ev.runs, ev.s * T.sector, T.geo)
-                           /\ ev.tell = pos
+                           /\ (p >= 0 => ev.tell = p)
     [] OTHER -> FALSE
 
+\* the object the event was recorded on moves as specified; objects above it are untouched; objects below it (its
+\* ancestors) may have been repositioned by it
 NewPos(ev) ==
-  CASE ev.e = "seek" -> ev.ret
-    [] ev.e \in {"read", "readinto"} -> pos + ev.len
-    [] ev.e = "readoffset" -> ev.o + ev.len
-    [] OTHER -> pos
+  [k \in 1..MaxObj |->
+     IF k < Obj(ev) THEN pos[k]
+     ELSE IF k > Obj(ev) THEN -1
+     ELSE CASE ev.e = "seek" -> ev.ret
+            [] ev.e \in {"read", "readinto"} -> pos[k] + ev.len
+            [] ev.e = "readoffset" -> ev.o + ev.len
+            [] OTHER -> pos[k]]
 
 \* name the failing clause of a rejected event
 Clause(ev) ==
   IF ev.e \in {"read", "readinto", "peek", "readoffset"} THEN
-    LET at == IF ev.e = "readoffset" THEN ev.o ELSE pos IN
-    IF ev.e # "readoffset" /\ ev.pos0 # pos THEN "position-before"
+    LET at == IF ev.e = "readoffset" THEN ev.o ELSE pos[Obj(ev)] IN
+    IF ev.e # "readoffset" /\ ev.pos0 # pos[Obj(ev)] THEN "position-before"
     ELSE IF ev.len # ExpectLen(T.sizeB, at, ev.n) THEN "length"
     ELSE IF TotalLen(ev.runs) # ev.len THEN "runs-length"
     ELSE IF ~RunsOK(Src, ev.runs, at, T.geo) THEN "content"
@@ -121,17 +137,18 @@ Clause(ev) ==
     ELSE "position-after"
   ELSE ev.e
 
+Pos0 == [k \in 1..MaxObj |-> 0]
 TInit == /\ img = 0 /\ view = 0 /\ last = 0
-         /\ tid = 1 /\ l = 1 /\ pos = 0
+         /\ tid = 1 /\ l = 1 /\ pos = Pos0
 
 Step    == /\ tid <= Len(Traces) /\ l <= Len(T.events) /\ EventOK(Ev)
            /\ l' = l + 1 /\ pos' = NewPos(Ev) /\ UNCHANGED <<vars, tid>>
 Reject  == /\ tid <= Len(Traces) /\ l <= Len(T.events) /\ ~EventOK(Ev)
            /\ PrintT(<<"REJECT", T.tid, l, Clause(Ev)>>)
-           /\ tid' = tid + 1 /\ l' = 1 /\ pos' = 0 /\ UNCHANGED vars
+           /\ tid' = tid + 1 /\ l' = 1 /\ pos' = Pos0 /\ UNCHANGED vars
 Accept  == /\ tid <= Len(Traces) /\ l > Len(T.events)
            /\ PrintT(<<"ACCEPT", T.tid>>)
-           /\ tid' = tid + 1 /\ l' = 1 /\ pos' = 0 /\ UNCHANGED vars
+           /\ tid' = tid + 1 /\ l' = 1 /\ pos' = Pos0 /\ UNCHANGED vars
 
 TNext == Step \/ Reject \/ Accept
 TraceSpec == TInit /\ [][TNext]_tvars
